@@ -153,7 +153,10 @@ def run_case(case):
                 if f["sig"].startswith("obs:"):
                     outcome[f["sig"]] = outcome.get(f["sig"], 0) + 1
                     continue
-                add(f["sig"], dict(f["detail"], system=P.describe(s), resolved=slices), size)
+                # the signature names the failing input class: violated kind + the constraint kinds of the system it occurs in
+                kinds = "+".join(sorted({c["k"] for c in s["constraints"]} | ({"own-rpos"} if any(x is not None for o in s["objects"] for x in o["rpos"]) else set())))
+                sig = f["sig"] if (len(s["constraints"]) <= 1 or f["sig"].endswith("silently-clamped")) else f"{f['sig']}:in={kinds}:n={len(s['constraints'])}"
+                add(sig, dict(f["detail"], system=P.describe(s), resolved=slices), size)
             if P.binds(s, slices):
                 nontriv += 1
         else:
